@@ -358,7 +358,7 @@ func runC01(ctx *core.Ctx) {
 	var pos5, pos8 []int
 	for p := 0; p < 256; p++ {
 		pos5 = append(pos5, p)
-		if !ctx.Quick() || p < 20 || p%16 < 2 || p > 236 {
+		if !smoke(ctx) || p < 20 || p%16 < 2 || p > 236 {
 			pos8 = append(pos8, p)
 		}
 	}
